@@ -185,6 +185,10 @@ def case_term(codes, case, obs):
                     deleted = bool(e.get("deleted"))
             terms.append("SGet %d %s %s %s %s %s %s" % (codes.ucode(expand(op["id"])), at, scope, vlib.coq_bool(op.get("merge", False)),
                                                       vlib.coq_bool(found), vlib.coq_list(parts), vlib.coq_bool(deleted)))
+        elif k == "rawkeys":
+            for fam, keys in sorted((oo.get("raw") or {}).items(), key=lambda kv: int(kv[0])):
+                ks = vlib.coq_list([vlib.coq_list(["%d%%N" % b for b in bytes.fromhex(h)]) for h in keys])
+                terms.append("SRaw %s%%N %s" % (fam, ks))
         else:
             raise ValueError("op kind not handled by case_term: " + k)
     return vlib.coq_list(["\n  " + t for t in terms])
